@@ -418,6 +418,12 @@ func (a *act) pureSpecUF(fs *FuncSpec, name string, args []Val, rtyp types.Type,
 			sorts = append(sorts, t.Sort)
 		}
 	}
+	if len(fs.Reads) == 0 && !fs.PureArgs {
+		// no reads clause: the result may depend on the whole heap; two applications agree only when
+		// nothing at all was written in between (same heap version)
+		ats = append(ats, e.heapVersion(st))
+		sorts = append(sorts, SInt)
+	}
 	ls := e.layout(rtyp)
 	ts := make([]Term, len(ls))
 	for i, l := range ls {
